@@ -10,10 +10,10 @@ weights all fold into `W`) and the flag `real` (real spaces hold conjugation-inv
 entries only).  The scalar type `K` is arbitrary (core notation classes only) with an
 explicit conjugation `cj` and imaginary unit `I`; the driver evaluates at Gaussian rationals.
 
-`adj` returns `none` where the Python property raises (non-linear operand, field-domain
-multiplication by a complex vector).  The model follows the code as it exists: e.g.
-`MatrixOperator.adjoint` is the conjugate transpose whatever the weightings are, and
-`RealPart(C).adjoint` is `ComplexEmbedding(C)` (domain `C`, not the real range).
+`adj` returns `none` where the Python property raises (non-linear operand).  The model follows
+the code as it exists (after the `fix:` commits for MatrixOperator, Sampling, Flattening,
+RealPart/ImagPart and the field-domain MultiplyOperator): e.g. `MatrixOperator.adjoint` is
+`W_dom⁻¹ Mᴴ W_ran`, and `RealPart(C).adjoint` is `ComplexEmbedding(C.real_space)`.
 -/
 namespace OdlModel.Adjoint
 
@@ -64,8 +64,8 @@ inductive Leaf (K : Type)
   | pwInnerAdj (X V : Space K) (G : El K) (w v : Nat → K)  -- v = weights of the range V
   | sampling (S R : Space K) (idx : Nat → Nat) (integrate : Bool) (cv : K)
   | wsum (R S : Space K) (idx : Nat → Nat) (dirac : Bool) (cv : K)
-  | flatten (S R : Space K) (cv : K)                   -- FlatteningOperator, order 'C'
-  | flattenInv (R S : Space K) (cv : K)
+  | flatten (S R : Space K)                            -- FlatteningOperator, order 'C'
+  | flattenInv (R S : Space K)
   | proj (P Q : Space K) (idx : Nat → Nat)             -- ComponentProjection
   | projAdj (Q P : Space K) (idx : Nat → Nat)          -- ComponentProjectionAdjoint
 
@@ -94,14 +94,14 @@ def Leaf.dom : Leaf K → Space K
   | .multiply d _ _ => d | .multField _ F _ => F | .inner S _ _ => S | .realPart S _ => S
   | .imagPart S _ => S | .cembed S _ _ => S | .matrix d _ _ => d | .pwInner V _ _ _ _ => V
   | .pwInnerAdj X _ _ _ _ => X | .sampling S _ _ _ _ => S | .wsum R _ _ _ _ => R
-  | .flatten S _ _ => S | .flattenInv R _ _ => R | .proj P _ _ => P | .projAdj Q _ _ => Q
+  | .flatten S _ => S | .flattenInv R _ => R | .proj P _ _ => P | .projAdj Q _ _ => Q
 
 def Leaf.ran : Leaf K → Space K
   | .opaque _ _ r _ _ => r | .nonlin _ r _ => r | .scaling S _ => S | .zero _ r => r
   | .multiply _ r _ => r | .multField S _ _ => S | .inner _ F _ => F | .realPart _ R => R
   | .imagPart _ R => R | .cembed _ C _ => C | .matrix _ r _ => r | .pwInner _ X _ _ _ => X
   | .pwInnerAdj _ V _ _ _ => V | .sampling _ R _ _ _ => R | .wsum _ S _ _ _ => S
-  | .flatten _ R _ => R | .flattenInv _ S _ => S | .proj _ Q _ => Q | .projAdj _ P _ => P
+  | .flatten _ R => R | .flattenInv _ S => S | .proj _ Q _ => Q | .projAdj _ P _ => P
 
 /-- `out = zero; out[index] = x` of ComponentProjectionAdjoint: a later index wins. -/
 def assignTo (idx : Nat → Nat) (y : El K) (j i : Nat) : Nat → K
@@ -129,8 +129,8 @@ def Leaf.run (cj : K → K) (I : K) : Leaf K → El K → El K
       x 0 (idx k) * (if integrate then cv else 1)
   | .wsum R _ idx dirac cv => fun y _ i =>
       (sumTo (R.n 0) fun k => if idx k = i then y 0 k else 0) / (if dirac then cv else 1)
-  | .flatten _ _ _ => fun x _ i => x 0 i
-  | .flattenInv _ _ _ => fun y _ i => y 0 i
+  | .flatten _ _ => fun x _ i => x 0 i
+  | .flattenInv _ _ => fun y _ i => y 0 i
   | .proj _ _ idx => fun x j i => x (idx j) i
   | .projAdj Q _ idx => fun y j i => assignTo idx y j i Q.m
 
@@ -187,11 +187,12 @@ def Leaf.adj (cj : K → K) (I : K) : Leaf K → Option (Impl K)
   -- MultiplyOperator.adjoint: conj only if the domain is complex
   | .multiply d r v =>
       some (.leaf (if d.real then .multiply r d v else .multiply r d (fun j i => cj (v j i))))
-  -- field domain: InnerProductOperator(v) for RealNumbers; the ComplexNumbers branch raises
-  | .multField S F v => if F.real then some (.leaf (.inner S F v)) else none
+  -- field domain (RealNumbers or ComplexNumbers): InnerProductOperator(v)
+  | .multField S F v => some (.leaf (.inner S F v))
   | .inner S F v => some (.leaf (.multField S F v))
-  | .realPart S R => some (.leaf (if S.real then .realPart S R else .cembed S S 1))
-  | .imagPart S R => some (.leaf (if S.real then .zero S S else .cembed S S I))
+  -- complex S: ComplexEmbedding(self.range, 1) resp. (self.range, 1j), i.e. R → S
+  | .realPart S R => some (.leaf (if S.real then .realPart S R else .cembed R S 1))
+  | .imagPart S R => some (.leaf (if S.real then .zero S S else .cembed R S I))
   | .cembed S C s =>
       if S.real then
         if reK cj s = s then some (.lscal (.leaf (.realPart C S)) (reK cj s))
@@ -199,14 +200,21 @@ def Leaf.adj (cj : K → K) (I : K) : Leaf K → Option (Impl K)
         else some (.sum (.lscal (.leaf (.realPart C S)) (reK cj s))
                         (.lscal (.leaf (.imagPart C S)) (imK cj I s)))
       else some (.leaf (.cembed C C (cj s)))
-  -- MatrixOperator.adjoint: conjugate transpose, weightings ignored
-  | .matrix d r M => some (.leaf (.matrix r d fun i k => cj (M k i)))
+  -- MatrixOperator.adjoint: W_dom⁻¹ Mᴴ W_ran (the code multiplies by the scalar ratio for two
+  -- constant weightings and by the weight arrays otherwise: the same matrix)
+  | .matrix d r M => some (.leaf (.matrix r d fun i k => cj (M k i) * r.W 0 k / d.W 0 i))
   | .pwInner V X G w v => some (.leaf (.pwInnerAdj X V G w v))
   | .pwInnerAdj X V G w v => some (.leaf (.pwInner V X G w v))
-  | .sampling S R idx integrate cv => some (.leaf (.wsum R S idx (!integrate) cv))
-  | .wsum R S idx dirac cv => some (.leaf (.sampling S R idx (!dirac) cv))
-  | .flatten S R cv => some (.lscal (.leaf (.flattenInv R S cv)) (1 / cv))
-  | .flattenInv R S cv => some (.lscal (.leaf (.flatten S R cv)) cv)
+  -- Sampling ↔ WeightedSumSampling, corrected by the ratio cell_volume / weighting of the
+  -- discretized space (the code returns the bare operator when the ratio is 1, a scalar
+  -- multiple for a constant and a vector multiple for an array weighting: same action)
+  | .sampling S R idx integrate cv =>
+      some (.lvec (.leaf (.wsum R S idx (!integrate) cv)) fun j i => cv / S.W j i)
+  | .wsum R S idx dirac cv =>
+      some (.rvec (.leaf (.sampling S R idx (!dirac) cv)) fun j i => S.W j i / cv)
+  -- Flattening: (1 / weighting) * inverse, resp. op * weighting (scalar or vector multiple)
+  | .flatten S R => some (.lvec (.leaf (.flattenInv R S)) fun j i => 1 / S.W j i)
+  | .flattenInv R S => some (.rvec (.leaf (.flatten S R)) fun j i => S.W j i)
   | .proj P Q idx => some (.leaf (.projAdj Q P idx))
   | .projAdj Q P idx => some (.leaf (.proj P Q idx))
 
